@@ -17,6 +17,8 @@ Proof.
   - destruct (sget s X_dctx); [reflexivity|]. destruct (run o (lop_prog rp a b c LCreate) _); reflexivity.
   - destruct (run o (lop_prog rp a b c LFree) _); reflexivity.
   - destruct (sget s X_dctx); [|reflexivity]. destruct (run o (lop_prog rp a b c (LStream isz osz)) _); reflexivity.
+  - destruct (sget s X_dctx); [|reflexivity]. destruct (run o (lop_prog rp a b c LOneShot) _); reflexivity.
+  - destruct (sget s X_dctx); [|reflexivity]. destruct (run o (lop_prog rp a b c (LModern n sz)) _); reflexivity.
 Qed.
 
 Definition lany (o : lop) : bool := true.
@@ -27,7 +29,7 @@ Definition St_legacy : list astate :=
   Eval vm_compute in unoptL (reachSL FL (map (lclient repaired 0 0 0) (lreps)) ainit).
 
 Lemma legacy_closed : forall a b c op, lany op = true -> closedSF FL St_legacy aerr_iff_fail (lclient repaired a b c op) = true.
-Proof. intros a b c op _. destruct op; run_analysis. Qed.
+Proof. intros a b c op _. destruct op as [| | | |n sz]; try run_analysis. destruct n as [|[p|p|]]; run_analysis. Qed.
 Lemma legacy_teardown : forall a b c, all_res aclean (aexecS FL true (lteardown repaired a b c) St_legacy) = true.
 Proof. intros. run_analysis. Qed.
 Lemma legacy_init : In ainit St_legacy.
